@@ -1647,11 +1647,11 @@ impl<'a, T> Request<T> for ResultItem<'a, T>
 where
     T: Storable,
 {
-    fn to_handle<'store, S>(&self, _store: &'store S) -> Option<T::HandleType>
+    fn to_handle<'store, S>(&self, store: &'store S) -> Option<T::HandleType>
     where
         S: StoreFor<T>,
     {
-        Some(self.handle())
+        (&self).to_handle(store)
     }
 }
 
@@ -1659,11 +1659,17 @@ impl<'a, T> Request<T> for &ResultItem<'a, T>
 where
     T: Storable,
 {
-    fn to_handle<'store, S>(&self, _store: &'store S) -> Option<T::HandleType>
+    fn to_handle<'store, S>(&self, store: &'store S) -> Option<T::HandleType>
     where
         S: StoreFor<T>,
     {
-        Some(self.handle())
+        //(the handle only means this item in the store the item lives in: a key of another
+        // dataset has the handle of some other key here)
+        let handle = self.handle();
+        match store.store().get(handle.as_usize()) {
+            Some(Some(item)) if std::ptr::eq(item, self.as_ref()) => Some(handle),
+            _ => None,
+        }
     }
 }
 
